@@ -116,8 +116,9 @@ def packet(family, action, kids):
 N_FAMILIES = 240
 
 
-def prelude():
-    fams = [(f"Fam{i}", i) for i in range(1, N_FAMILIES + 1)] + [("Last", 255)]
+def prelude(n_families=None):
+    n_families = N_FAMILIES if n_families is None else n_families
+    fams = [(f"Fam{i}", i) for i in range(1, n_families + 1)] + [("Last", 255)]
     return [
         enum("PacketFamily", "byte", fams),
         enum("PacketAction", "byte", [("Act", 1), ("Other", 255)]),
@@ -203,6 +204,7 @@ def leaf_templates():
     t.append(_T("hc:str2", 1, lambda nm: [field(None, "string", "hi", length="2")], "hardcoded"))
     one("hcn:char", "hardcoded", lambda n: field(n, "char", "7"))
     one("hcn:str", "hardcoded", lambda n: field(n, "string", "hi"))
+    one("hcn:bool", "hardcoded", lambda n: field(n, "bool", "true"))
     # optional
     one("opt:char", "optional", lambda n: field(n, "char", optional="true"))
     one("opt:str", "optional", lambda n: field(n, "string", optional="true"))
